@@ -52,6 +52,22 @@ Theorem C02_print_reparse : forall s : str, forall f, hedstring_init s = Ok f ->
 Proof. exact init_print_reparse. Qed.
 Print Assumptions C02_print_reparse.
 
+(* The same for ANY rendering of the tags that yields well-formed tag texts
+   (non-empty, free of ",()", no outer blanks): short form and long form are
+   such renderings (their texts are schema names plus the verbatim extension,
+   see C03) -- for EVERY text. *)
+Theorem C02_render_reparse : forall (s : str) (r : str -> str),
+  (forall t, tagbody t -> tagbody (r t)) ->
+  parse_sh (pr_list (map (map_sh r) (parse_sh s))) = map (map_sh r) (parse_sh s).
+Proof. exact render_reparse. Qed.
+Print Assumptions C02_render_reparse.
+
+(* parse_sh is the shape view of the constructor: same nesting, tag = source slice *)
+Theorem C02_parse_sh_is_init : forall s : str,
+  hedstring_init s = Ok (spec_parse s) /\ parse_sh s = map (shape_of s) (spec_parse s).
+Proof. exact (fun s => conj (init_refines_spec s) (parse_sh_spec s)). Qed.
+Print Assumptions C02_parse_sh_is_init.
+
 (* Independent kernel-evaluated cross-check of all clauses at once, exhaustive
    over the delimiter alphabet up to length 6 (redundant with the unbounded
    theorems above; kept as a sanity net for the model definitions). *)
